@@ -183,6 +183,10 @@ def run(ctx):
                       "good values = %s" % e, "invalid_value suggestions not drawn from possible values: %s" % e)
 
 
+    # ---- R10.4d (shared with C08 R8.3) what a subcommand lookup may answer with
+    from rules.c08 import inference_candidates
+    inference_candidates(fx, res, "R10.4")
+
     # ---- R10.5 pending positional values are resolved per occurrence unless (same arg && multi-valued)
     pp = fx.body("clap_builder::parser::parser::Parser::parse")
     posarg = r"get\(get_keymap\(self\.cmd\),pos_counter\)#Some\.0"
